@@ -37,6 +37,8 @@ REFS = {
     "B": cont(("a", [(2, 3, "x"), (4, 7, "y"), (8, 8.5, "z")]), ("b", [(0.5, 2.5, "x")]),
               ("c", [(1, 2, "z"), (6, 10, "z")])),
     "C": cont(("p", [(0, 1, "m")]), ("q", [(0, 1, "m"), (3, 9, "n")]), ("r", [])),
+    # the empty string is a category like any other (what from_csv gives for an empty column)
+    "E": cont(("a", [(0, 2, ""), (3, 4, "x"), (6, 9, "")]), ("b", [(1, 2, "")])),
 }
 CUSTOM = {
     "K1": dict(annotators=["u", "v"], avg_num_units_per_annotator=1.5, std_num_units_per_annotator=0.75,
@@ -118,6 +120,8 @@ def configs(tier):
     out.append({"ref": "A", "gt": ["b"], "bound": None, "nz": 3})
     out.append({"ref": "C", "gt": ["q", "r"], "bound": None, "nz": 3})
     out.append({"ref": "C", "gt": ["r"], "bound": None, "nz": 5})
+    out.append({"ref": "E", "gt": ["b"], "bound": None, "nz": 3})
+    out.append({"ref": "E", "gt": None, "bound": 3 if tier == "quick" else 4, "nz": 5})
     for gt in (["a"], ["c"], ["a", "b"], ["b", "c"]):
         out.append({"ref": "B", "gt": gt, "bound": None if len(gt) == 1 else (3 if tier == "quick" else 5),
                     "nz": 3 if len(gt) == 1 else 5, "boundary": len(gt) > 1})
